@@ -165,3 +165,156 @@ Proof.
         destruct (N.of_nat nw <? v_len v); cbn [fst] in H; [|discriminate].
         rewrite truncate_loop_no_boom in H. discriminate.
 Qed.
+
+(* ---------- what dedup_by keeps: the functional specification ---------- *)
+(* the first element always stays; each later element stays iff same_bucket answered No for it *)
+Fixpoint dedup_keep (xs : list N) (ans : list cans) : list N :=
+  match xs, ans with
+  | x :: r, No :: a => x :: dedup_keep r a
+  | x :: r, Yes :: a => dedup_keep r a
+  | _, _ => []
+  end.
+
+Lemma swapl_shape (a m t : list N) (y x : N) :
+  swapl (a ++ y :: m ++ x :: t) (length a + S (length m)) (length a) = a ++ x :: m ++ y :: t.
+Proof.
+  unfold swapl.
+  assert (L : length (a ++ y :: m ++ x :: t) = (length a + S (length m + S (length t)))%nat).
+  { rewrite app_length. cbn [length]. rewrite app_length. cbn [length]. reflexivity. }
+  assert (Nj : nth (length a) (a ++ y :: m ++ x :: t) 0 = y).
+  { rewrite app_nth2 by lia. rewrite Nat.sub_diag. reflexivity. }
+  assert (Ni : nth (length a + S (length m)) (a ++ y :: m ++ x :: t) 0 = x).
+  { rewrite app_nth2 by lia. replace (length a + S (length m) - length a)%nat with (S (length m)) by lia.
+    cbn [nth]. rewrite app_nth2 by lia. rewrite Nat.sub_diag. reflexivity. }
+  rewrite Nj, Ni.
+  rewrite (overwrite_one (a ++ y :: m ++ x :: t)) by (rewrite L; lia).
+  assert (G : a ++ y :: m ++ x :: t = (a ++ y :: m) ++ x :: t) by (rewrite <- app_assoc; reflexivity).
+  assert (Li : (length a + S (length m))%nat = length (a ++ y :: m)) by (rewrite app_length; reflexivity).
+  assert (F1 : firstn (length a + S (length m)) (a ++ y :: m ++ x :: t) = a ++ y :: m).
+  { rewrite G, Li. apply firstn_app_exact. }
+  assert (S1 : skipn (S (length a + S (length m))) (a ++ y :: m ++ x :: t) = t).
+  { rewrite G, Li. apply skipn_succ_app. }
+  rewrite F1, S1.
+  replace ((a ++ y :: m) ++ y :: t) with (a ++ y :: m ++ y :: t) by (rewrite <- app_assoc; reflexivity).
+  rewrite (overwrite_one (a ++ y :: m ++ y :: t)) by (rewrite app_length; cbn [length]; lia).
+  rewrite firstn_app, firstn_all2, Nat.sub_diag by lia. cbn [firstn]. rewrite app_nil_r.
+  rewrite skipn_app, skipn_all2 by lia. replace (S (length a) - length a)%nat with 1%nat by lia. reflexivity.
+Qed.
+
+Definition no_boom (ans : list cans) : Prop := Forall (fun a => a <> Boom) ans.
+
+Lemma dedup_loop_fun (c0 : list N) (rest : list slot) : forall fuel nr nw ans kept junk buf' nw' boom,
+  length kept = nw -> (length kept + length junk = nr)%nat -> (1 <= nw)%nat -> (nr <= length c0)%nat ->
+  (length c0 - nr <= fuel)%nat -> (length c0 - nr <= length ans)%nat -> no_boom ans ->
+  dedup_loop (map Some (kept ++ junk ++ skipn nr c0) ++ rest) (length c0) nr nw ans fuel = (buf', nw', boom) ->
+  boom = false /\ nw' = (nw + length (dedup_keep (skipn nr c0) ans))%nat /\
+  exists junk', buf' = map Some (kept ++ dedup_keep (skipn nr c0) ans ++ junk') ++ rest /\
+                length (kept ++ dedup_keep (skipn nr c0) ans ++ junk') = length c0.
+Proof.
+  induction fuel as [|fuel IH]; intros nr nw ans kept junk buf' nw' boom Hk Hj H1 Hn Hf Ha Hb H; cbn [dedup_loop] in H.
+  - assert (E0 : skipn nr c0 = []) by (apply skipn_all2; lia). rewrite E0 in *. inversion H; subst buf' nw' boom. cbn [dedup_keep length].
+    split; [reflexivity|]. split; [lia|]. exists junk. cbn [app]. rewrite app_nil_r. split; [reflexivity|].
+    rewrite !app_length. lia.
+  - destruct (Nat.ltb nr (length c0)) eqn:E.
+    + apply Nat.ltb_lt in E.
+      destruct (skipn nr c0) as [|x tl] eqn:ES.
+      { exfalso. apply (f_equal (@length N)) in ES. rewrite skipn_length in ES. cbn [length] in ES. lia. }
+      assert (ES1 : skipn (nr + 1) c0 = tl).
+      { rewrite <- (skipn_skipn' c0 1 nr). rewrite ES. reflexivity. }
+      destruct ans as [|a ans]; [cbn [length] in Ha; lia|].
+      apply Forall_cons_iff in Hb. destruct Hb as [Ha0 Hb']. cbn [length] in Ha.
+      destruct a; [| |contradiction].
+      * (* Yes: x becomes junk *)
+        cbn [dedup_keep].
+        replace (kept ++ junk ++ x :: tl) with (kept ++ (junk ++ [x]) ++ skipn (nr + 1) c0) in H
+          by (rewrite ES1, <- !app_assoc; reflexivity).
+        destruct (IH (nr + 1)%nat (length kept) ans kept (junk ++ [x]) buf' nw' boom eq_refl) as (B & W & j' & Eb & El);
+          try lia; try assumption.
+        { rewrite app_length. cbn [length]. lia. }
+        { subst nw. exact H. }
+        rewrite ES1 in *. subst nw. split; [exact B|]. split; [exact W|]. exists j'. split; assumption.
+      * (* No: x is kept *)
+        cbn [dedup_keep].
+        destruct (Nat.eqb nr nw) eqn:EQ.
+        -- apply Nat.eqb_eq in EQ. assert (junk = []) by (destruct junk; [reflexivity | cbn [length] in *; lia]). subst junk.
+           cbn [app] in H.
+           replace (kept ++ x :: tl) with ((kept ++ [x]) ++ [] ++ skipn (nr + 1) c0) in H
+             by (rewrite ES1, <- app_assoc; reflexivity).
+           destruct (IH (nr + 1)%nat (nw + 1)%nat ans (kept ++ [x]) [] buf' nw' boom) as (B & W & j' & Eb & El);
+             try lia; try assumption.
+           { rewrite app_length. cbn [length]. lia. }
+           { rewrite app_length. cbn [length]. lia. }
+           rewrite ES1 in *. split; [exact B|]. split; [cbn [length]; lia|]. exists j'.
+           rewrite <- !app_assoc in Eb, El. cbn [app] in *. split; assumption.
+        -- apply Nat.eqb_neq in EQ.
+           destruct junk as [|j0 junk1]; [cbn [length] in *; lia|].
+           assert (SW : swap_slots (map Some (kept ++ (j0 :: junk1) ++ x :: tl) ++ rest) nr nw
+                        = map Some (kept ++ x :: junk1 ++ j0 :: tl) ++ rest).
+           { rewrite swap_slots_buf.
+             - f_equal. f_equal. cbn [app]. subst nw. replace nr with (length kept + S (length junk1))%nat by (cbn [length] in Hj; lia).
+               apply swapl_shape.
+             - rewrite ?app_length; cbn [length]; rewrite ?app_length; cbn [length] in *; lia.
+             - rewrite ?app_length; cbn [length]; rewrite ?app_length; cbn [length] in *; lia. }
+           rewrite SW in H.
+           replace (kept ++ x :: junk1 ++ j0 :: tl) with ((kept ++ [x]) ++ (junk1 ++ [j0]) ++ skipn (nr + 1) c0) in H
+             by (rewrite ES1, <- !app_assoc; reflexivity).
+           destruct (IH (nr + 1)%nat (nw + 1)%nat ans (kept ++ [x]) (junk1 ++ [j0]) buf' nw' boom) as (B & W & j' & Eb & El);
+             try lia; try assumption.
+           { rewrite app_length. cbn [length]. lia. }
+           { rewrite !app_length. cbn [length] in *. lia. }
+           rewrite ES1 in *. split; [exact B|]. split; [cbn [length]; lia|]. exists j'.
+           rewrite <- !app_assoc in Eb, El. cbn [app] in *. split; assumption.
+    + apply Nat.ltb_ge in E. assert (E0 : skipn nr c0 = []) by (apply skipn_all2; lia). rewrite E0 in *.
+      inversion H; subst buf' nw' boom. cbn [dedup_keep length]. split; [reflexivity|]. split; [lia|]. exists junk. cbn [app]. rewrite app_nil_r. split; [reflexivity|].
+      rewrite !app_length. lia.
+Qed.
+
+(* dedup_by / dedup_by_key / dedup with a closure that does not panic: the vector ends as its first
+   element followed by exactly the elements for which same_bucket answered No, in order — what std
+   documents — and the others are the ones dropped *)
+Theorem dedup_by_spec e v x0 xs ans :
+  repr e v (x0 :: xs) -> no_boom ans -> (length xs <= length ans)%nat ->
+  repr e (dedup_state v ans) (x0 :: dedup_keep xs ans) /\
+  Permutation ((x0 :: dedup_keep xs ans) ++ f_drops (snd (dedup_by v ans))) (x0 :: xs).
+Proof.
+  intros R Hb Ha. set (c := x0 :: xs) in *.
+  destruct (dedup_by_safe e v c ans R) as (kept & Rk & P & _).
+  assert (EK : kept = x0 :: dedup_keep xs ans).
+  { rewrite <- (repr_contents e _ _ Rk). clear Rk P kept.
+    unfold dedup_state.
+    assert (R0 := R). destruct R0 as ((rest & Hbuf) & Hl & Hc & He).
+    assert (Hlen : nn (v_len v) = length c) by (unfold nn; lia).
+    destruct (Nat.leb (nn (v_len v)) 1) eqn:E1.
+    - apply Nat.leb_le in E1. rewrite Hlen in E1. unfold c in E1. cbn [length] in E1.
+      assert (xs = []) by (destruct xs; [reflexivity | cbn [length] in E1; lia]). subst xs.
+      cbn [dedup_keep]. exact (repr_contents e v _ R).
+    - apply Nat.leb_gt in E1. rewrite Hbuf, Hlen.
+      destruct (dedup_loop (map Some c ++ rest) (length c) 1 1 ans (length c)) as [[buf nw] boom] eqn:EL.
+      assert (Ec : c = [x0] ++ [] ++ skipn 1 c) by reflexivity.
+      rewrite Ec in EL at 1.
+      destruct (dedup_loop_fun c rest (length c) 1 1 ans [x0] [] buf nw boom eq_refl eq_refl (Nat.le_refl 1)) as (B & W & j' & Eb & Elen);
+        try (unfold c; cbn [length]; lia); try assumption.
+      subst boom. cbn [skipn] in *. unfold c in W, Eb, Elen. cbn [skipn] in W, Eb, Elen.
+      set (kp := dedup_keep xs ans) in *. unfold c in Hl, Hc, Hlen, Hbuf.
+      assert (R' : repr e (mkVec buf (v_len v)) ([x0] ++ kp ++ j')).
+      { unfold repr, v_cap. cbn [v_buf v_len]. rewrite Eb. split; [eexists; reflexivity|]. split; [rewrite Elen; lia|]. split; [|exact He].
+        assert (EQL : length (map Some ([x0] ++ kp ++ j') ++ rest) = length (v_buf v)).
+        { rewrite Hbuf. rewrite (app_length (map Some ([x0] ++ kp ++ j'))), (app_length (map Some (x0 :: xs))), !map_length, Elen. reflexivity. }
+        rewrite EQL. exact Hc. }
+      destruct (truncate_spec e (mkVec buf (v_len v)) _ (N.of_nat nw) [] R') as (m & Rm & _ & _ & Hret).
+      rewrite (repr_contents e _ _ Rm).
+      assert (Hm : m = nw).
+      { unfold truncate in Hret. cbn [v_len v_buf] in Hret.
+        destruct (N.of_nat nw <? v_len v) eqn:ET.
+        - destruct (truncate_loop buf [] (nn (N.of_nat nw)) (nn (v_len v)) (nn (v_len v) - nn (N.of_nat nw)) []) as [acc bm] eqn:ETL.
+          pose proof (truncate_loop_no_boom buf (nn (N.of_nat nw)) (nn (v_len v) - nn (N.of_nat nw)) (nn (v_len v)) []) as NB.
+          rewrite ETL in NB. cbn [snd] in NB. subst bm. cbn [fst] in Hret.
+          destruct (Hret _ eq_refl) as [_ Hm]. rewrite Hm. unfold nn. rewrite Nat2N.id.
+          apply Nat.min_l. rewrite !app_length. cbn [length]. lia.
+        - cbn [fst] in Hret. destruct (Hret _ eq_refl) as [_ Hm]. rewrite Hm. unfold nn. rewrite Nat2N.id.
+          apply Nat.min_l. rewrite !app_length. cbn [length]. lia. }
+      rewrite Hm, W.
+      replace (firstn (1 + length kp) ([x0] ++ kp ++ j')) with (x0 :: firstn (length kp) (kp ++ j')) by reflexivity.
+      f_equal. apply firstn_app_exact. }
+  rewrite <- EK. split; [exact Rk | exact P].
+Qed.
